@@ -190,6 +190,10 @@ func (P *Program) ContractFor(fn *ssa.Function) *FuncContract {
 	if c, ok := P.CS.Externs[fn.String()]; ok {
 		return c
 	}
+	// an instance of a generic function answers to the contract written for the generic function
+	if o := fn.Origin(); o != nil && o != fn {
+		return P.ContractFor(o)
+	}
 	return nil
 }
 
